@@ -1,0 +1,4 @@
+// Package verifhook contains schedule points used by the external
+// verification harness. With the "verif" build tag off (the default) every
+// function in this package is an empty, inlinable no-op.
+package verifhook
